@@ -97,7 +97,35 @@ class InitVersions(Unit):
         E = I.E
         sup = minecraft.SUPPORTED_PROTOCOL_VERSIONS
         idx = minecraft.PROTOCOL_VERSION_INDICES
-        mode = E.fork(4, 'mode')
+        mode = E.fork(5, 'mode')
+        if mode == 4:
+            # the supported set is extensible at RUN TIME (records appended, initglobals() - "all updates are done by
+            # reference"): what the constructor accepts follows the tables as they are NOW, not a copy taken at import
+            # (seeded change C09-r13: frozenset(SUPPORTED_PROTOCOL_VERSIONS) built when the module is imported)
+            P, NAME = 999001, 'verif-extension'
+            tabs = (minecraft.SUPPORTED_PROTOCOL_VERSIONS, minecraft.KNOWN_PROTOCOL_VERSIONS)
+            maps = (minecraft.SUPPORTED_MINECRAFT_VERSIONS, minecraft.KNOWN_MINECRAFT_VERSIONS)
+            try:
+                for t in tabs:
+                    t.append(P)
+                for m in maps:
+                    m[NAME] = P
+                minecraft.PROTOCOL_VERSION_INDICES[P] = len(minecraft.KNOWN_PROTOCOL_VERSIONS) - 1
+                for kw in (dict(initial_version=P), dict(initial_version=NAME), dict(allowed_versions={P}), dict(allowed_versions={NAME})):
+                    try:
+                        c = I.call(Connection, 'h', 1, **kw)
+                        ok = c.default_proto_version == P if 'initial_version' in kw else c.allowed_proto_versions == {P}
+                        E.check('init.follows-runtime-extension', ok, note='%r after the version was declared supported at run time' % (kw,))
+                    except PyRaise as e:
+                        E.check('init.follows-runtime-extension', False, note='%r refused after the version was declared supported at '
+                                                                               'run time: %r' % (kw, e.exc))
+            finally:
+                del minecraft.PROTOCOL_VERSION_INDICES[P]
+                for m in maps:
+                    del m[NAME]
+                for t in tabs:
+                    t.pop()
+            return None
         if mode == 0:
             # initial_version: ANY integer
             v = E.new_int('initial')
@@ -148,6 +176,10 @@ class InitVersions(Unit):
             rp = replay_initial_names()
             if rp['confirmed']:
                 return rp
+        if label.startswith('init.follows'):
+            rp = replay_runtime_extension()
+            if rp['confirmed']:
+                return rp
         if 'initial' not in model:
             return replay_default_version()
         v = int(model.get('initial', 0))
@@ -176,11 +208,42 @@ class InitVersions(Unit):
         cnt += rp['n']
         if rp['confirmed']:
             fails.insert(0, dict(call=rp['call'], observed=rp['observed'], witness='initial-version-name'))
+        rp = replay_runtime_extension()
+        cnt += rp['n']
+        if rp['confirmed']:
+            fails.insert(0, dict(call=rp['call'], observed=rp['observed'], witness='runtime-extension'))
         return dict(name='C09.init.all-known', evaluations=cnt, failures=fails[:2], exhaustive_for_bound=True,
                     bound='every known protocol number and every known version name; default version for six allowed sets')
 
 
 # ------------------------------------------------------------------------------------------
+def replay_runtime_extension():
+    """The documented way to add a version at run time: append a record, initglobals(); the constructor and the mismatch
+    report must follow.  (Tables restored afterwards.)"""
+    from minecraft import Version
+    from minecraft.exceptions import VersionMismatch
+    recs = minecraft.KNOWN_MINECRAFT_VERSION_RECORDS
+    recs.append(Version('verif-extension', 999001, True))
+    bad = None
+    try:
+        minecraft.initglobals(use_known_records=True)
+        for kw in (dict(initial_version=999001), dict(allowed_versions={'verif-extension'}), dict(allowed_versions={757, 999001})):
+            k, c = native_call(Connection, 'h', 1, **kw)
+            if k != 'ok':
+                bad = 'Connection(%r) after the version was added at run time: %s %r' % (kw, k, c)
+                break
+        if bad is None:
+            c = Connection('h', 1, allowed_versions={757})
+            k, e = native_call(c._version_mismatch, server_protocol=999001, server_version=None)
+            if k != 'raise' or not isinstance(e, VersionMismatch) or 'not allowed' not in str(e):
+                bad = 'mismatch report for the run-time supported version 999001: %s %r (it IS supported, only not allowed)' % (k, str(e))
+    finally:
+        recs.pop()
+        minecraft.initglobals(use_known_records=True)
+    return dict(confirmed=bad is not None, n=4, call='records extended by (verif-extension, 999001, supported) + initglobals()',
+                observed=bad or 'constructor and mismatch report follow the extension')
+
+
 def replay_initial_names():
     """initial_version given as a version NAME: the default (fallback) version must be its protocol NUMBER - it becomes
     context.protocol_version when a status query fails, and every id / layout lookup takes a number."""
